@@ -31,7 +31,7 @@ CATS = ["C01", "C01", "C02", "C05", "S"]
 
 
 def gen(rnd, cfg, nb):
-    case = chainexec.gen_case(rnd, cfg, nb, 0.45, CATS, p_fork=0.45, p_tx=0.75)
+    case = chainexec.gen_case(rnd, cfg, nb, 0.45, CATS, p_fork=0.45, p_tx=0.75, zero_rewards=True)
     ops = case["ops"]
     deliveries = []
     deferred = []
